@@ -82,6 +82,9 @@ def programs(tier, rnd):
     ps.append(dict(name='soc-basic', kind='soc', k=0))
     ps.append(dict(name='soc-two-cones', kind='soc', k=1))
     ps.append(dict(name='soc-infeasible', kind='soc', k=2))
+    # exponential-cone models through soc_solve(): the program every SOC-capable interface receives is the real to_socp() output
+    ps.append(dict(name='socx-exp', kind='socx', k=0))
+    ps.append(dict(name='socx-log-utility', kind='socx', k=1))
     # market-split members: branch and bound needs thousands of nodes (iteration limits of an interface become visible)
     for i in range(2 if tier == 'quick' else 8):
         ps.append(dict(name='msplit%d' % i, kind='msplit', n=18, k=3, seed=100 + i))
@@ -119,6 +122,17 @@ def build(p):
             m.st(rso.norm(x, 2) <= 1, x[0] >= 2)
             m.min(x.sum())
         return m
+    if p['kind'] == 'socx':
+        if p['k'] == 0:
+            x = m.dvar()
+            m.st(rso.exp(x) <= 5, x >= -2)
+            m.min(-1.0 * x)
+        else:
+            x = m.dvar(2)
+            t = m.dvar(2)
+            m.st(t <= rso.log(x), x[0] + 2 * x[1] <= 4, x <= 6, t >= -5)
+            m.min(-1.0 * t.sum())
+        return m
     if p['kind'] == 'msplit':
         import random
         r = random.Random(p['seed'])
@@ -147,7 +161,7 @@ def build(p):
 
 
 def supported(p, iface):
-    if p['kind'] == 'soc':
+    if p['kind'] in ('soc', 'socx'):
         return iface in ('grb', 'eco')
     return True
 
@@ -163,6 +177,8 @@ def run_case(case, ses):
     with quiet():
         m0 = build(p)
         f0 = m0.do_math()
+        if p['kind'] == 'socx':
+            f0 = f0.to_socp()
     P = CProg(f0)
     ses.stats.programs += 1
     vs = P.z3vars()
@@ -176,6 +192,8 @@ def run_case(case, ses):
             status, opt = unbounded_certificate(ses, P, vs, Pc, name), None
         else:
             status, opt = ses.optimum(Pc, obj, label=name + '/exact', ints=P.int_vars(vs))
+    elif p['kind'] == 'socx':
+        status, opt = 'optimal?', None
     else:
         r, _ = ses.solve(Pc, label=name + '/feas')
         status, opt = ('infeasible', None) if r == 'unsat' else ('optimal?', None)
@@ -242,6 +260,24 @@ def check_iface(ses, p, P, vs, Pc, obj, status, opt, iface, display):
         report(ses, p, iface, 'program has an optimum (%s) but the interface reports no solution' % (opt,))
         return
     ses.stats.discharged += 1
+    if p['kind'] == 'socx':
+        # the to_socp() program has 7+ coupled cones per exponential cone: "a feasible point nearby" is undecided for nlsat
+        # within minutes.  Ground check instead: the returned vector itself satisfies rows, bounds and CONE MEMBERSHIPS of the
+        # real program (exact rational arithmetic, tolerance 1e-5), and the value agrees with the closed form within the 1e-3
+        # the approximation promises.
+        import math
+        ses.stats.obligations += 1
+        ses.stats.kinds['returned-point-in-program(ground)'] = ses.stats.kinds.get('returned-point-in-program(ground)', 0) + 1
+        bad = P.check_point(sol.x, tol=Fraction(1, 10 ** 5))
+        exact = -math.log(5.0) if p['k'] == 0 else -math.log(2.0)
+        if bad:
+            report(ses, p, iface, 'soc_solve: the returned vector violates the program handed to the interface: %s' % (bad[:3],))
+        elif abs(float(sol.objval) - exact) > 2e-3 * (1 + abs(exact)):
+            report(ses, p, iface, 'soc_solve: reported optimum %r, closed form %r' % (float(sol.objval), exact))
+        else:
+            ses.stats.discharged += 1
+            ses.stats.nontrivial.add(name)
+        return
     x = [Fraction(float(t)) for t in sol.x]
     objval = Fraction(float(sol.objval))
     scale = 1 + abs(objval)
@@ -278,7 +314,10 @@ def _child(conn, p, iface, display):
         with quiet():
             m = build(p)
             try:
-                m.solve(get_solver(iface), display=display)
+                if p['kind'] == 'socx':
+                    m.soc_solve(get_solver(iface), display=display)
+                else:
+                    m.solve(get_solver(iface), display=display)
             except Exception as e:
                 conn.send(dict(err='%s: %s' % (type(e).__name__, e)))
                 return
